@@ -642,6 +642,7 @@ def observe(ctx, spec, sched, outs, api, per_service, label):
                 ops.append({"op": "c10.sort_by_key", "items": [[n, n] for n in names], "fold": True})
                 checks.append(("retry", svc, (m, names)))
     model = ask(ctx, ops)
+    fix_ops, fix_meta = [], []
     for k, o in enumerate(outs):
         resp = ra if k == 0 else plugin_pb2.CodeGeneratorResponse.FromString(o[1])
         files = {f.name: f.content for f in resp.file}
@@ -652,16 +653,23 @@ def observe(ctx, spec, sched, outs, api, per_service, label):
                 if client is None:
                     continue
                 got = helper_order(client)
-                ctx.traces += 1
-                if mo.get("outcomes") is None:
-                    ctx.unsupported += 1
-                    continue
-                poss = [list(x) for x in mo["outcomes"]]
-                if got not in poss:
-                    ctx.disagree("T3:c10.helper_order", f"{svc.name}: emitted helper order {got} not among the model's outcomes {poss[:3]}",
+                by_pat = {p: t for t, p in data}
+                if sorted(got) != sorted(by_pat):
+                    ctx.disagree("T3:c10.helper_set", f"{svc.name}: emitted helpers {got} are not the service's resources {sorted(by_pat)}",
                                  {**payload, "seed": sched[k][0]})
-                if mo["injective"] and len(poss) != 1:
-                    ctx.disagree("T3:c10.model-self", "injective key but several outcomes", payload)
+                    continue
+                # membership in the model's outcome set, without enumerating it: `got` is a possible outcome iff it is a
+                # permutation of the set (checked above) and the model's stable sort leaves it unchanged
+                fix_ops.append({"op": "c10.resources", "resources": [[by_pat[p], p] for p in got]})
+                fix_meta.append((svc.name, got, sched[k][0]))
+                if mo.get("outcomes") is not None:
+                    poss = [list(x) for x in mo["outcomes"]]
+                    ctx.traces += 1
+                    if got not in poss:
+                        ctx.disagree("T3:c10.helper_order", f"{svc.name}: emitted helper order {got} not among the model's outcomes {poss[:3]}",
+                                     {**payload, "seed": sched[k][0]})
+                    if mo["injective"] and len(poss) != 1:
+                        ctx.disagree("T3:c10.model-self", "injective key but several outcomes", payload)
             else:
                 m, names = data
                 base = next((c for n, c in files.items() if sdir in n and n.endswith("/transports/base.py")), None)
@@ -672,6 +680,13 @@ def observe(ctx, spec, sched, outs, api, per_service, label):
                 if mo.get("order") not in lists:
                     ctx.disagree("T3:c10.retry_order", f"{svc.name}.{m.name}: model order {mo.get('order')} not emitted; emitted lists {lists[:4]}",
                                  {**payload, "seed": sched[k][0]})
+    for (sname, got, seed), mo in zip(fix_meta, ask(ctx, fix_ops)):
+        ctx.traces += 1
+        if mo.get("order") != got:
+            ctx.disagree("T3:c10.helper_order", f"{sname}: emitted helper order {got} is not a fixed point of the model's sort ({mo.get('order')}): "
+                                                "not a possible outcome for any iteration order", {**payload, "seed": seed})
+        if mo.get("injective") and len({tuple(g) for (n2, g, _) in fix_meta if n2 == sname}) != 1:
+            ctx.disagree("T3:c10.helper_order", f"{sname}: model says order-free (injective key) but the processes emitted different orders", payload)
 
 
 # ----------------------------------------------------------------------------------------- corpus
